@@ -4,7 +4,7 @@ from hypothesis import strategies as st
 from vlib.harness import Violation
 
 PID = "C22"
-RULE = ("REPL sessions of 4..14 cells (thorough ..30): type declarations (storage with 0, 1 or 2 big maps / sapling states / "
+RULE = ("REPL sessions of 4..14 cells (thorough ..30), a third of them attached to a simulated node that serves the big maps given by identifier: type declarations (storage with 0, 1 or 2 big maps / sapling states / "
         "parameter), BEGIN "
         "with empty or non-empty big_map literals or big_map identifiers, contract bodies split into 1..3 cells (big_map UPDATE on the storage's maps, "
         "EMPTY_BIG_MAP + UPDATE of fresh maps), COMMIT, free cells (PUSH / DUP / SWAP / DROP / EMPTY_BIG_MAP / UPDATE / GET / "
@@ -138,7 +138,9 @@ CTX_FIELDS = ["amount", "balance", "now", "level", "sender", "source", "chain_id
 
 def obs_context(interp):
     c = interp.context
-    return {f: repr(getattr(c, f, "<missing>")) for f in CTX_FIELDS}
+    out = {f: repr(getattr(c, f, "<missing>")) for f in CTX_FIELDS}
+    out["attached-to-node"] = repr((getattr(c, "shell", None) is not None, getattr(c, "network", None), getattr(c, "key", None) is not None))
+    return out
 
 
 def obs_result(res, raised):
@@ -171,17 +173,38 @@ def run_cell(interp, text):
         return None, "%s: %s" % (type(e).__name__, str(e)[:80])
 
 
-def oracle(case):
+def _attach(it):
+    """The session is attached to a (simulated) node, as after RESET "<network>": big maps given by identifier are read from it."""
+    from hashlib import blake2b
+    from vlib import fake_node
+    from vlib import ref_crypto as rc
+    from vlib import ref_values as rv
+    node = fake_node.FakeNode()
+    for bm in (0, 3, 7, 8):
+        node.big_maps[bm] = {rc.tz_encode(blake2b(rv.pack(rv.T("nat"), k, legacy=True), digest_size=32).digest(), "expr"): {"int": str(10 * bm + k)}
+                             for k in (1, 4, 6)}
+    it.context.shell = fake_node.shell(node)
+    it.context.network = "fakenet"
+
+
+def _interpreter(case):
     from pytezos.michelson.repl import Interpreter
+    it = Interpreter()
+    if case.get("attached"):
+        _attach(it)
+    return it
+
+
+def oracle(case):
     cells = case["cells"]
-    A = Interpreter()
+    A = _interpreter(case)
     failed, trace_a = [], []
     for i, text in enumerate(cells):
         res, raised = run_cell(A, text)
         bad = raised is not None or res.error is not None
         failed.append(bad)
         trace_a.append((obs_result(res, raised), obs_stack(A), obs_context(A)))
-    B = Interpreter()
+    B = _interpreter(case)
     for i, text in enumerate(cells):
         if failed[i]:
             continue
@@ -212,7 +235,7 @@ def oracle(case):
                             "stdout")
     # the state right after a failing cell equals the state before it (checked on session A alone)
     prev = ([], None)
-    A2 = Interpreter()
+    A2 = _interpreter(case)
     prev_stack, prev_ctx = obs_stack(A2), obs_context(A2)
     for i, text in enumerate(cells):
         _, sa, ca = trace_a[i]
@@ -273,7 +296,7 @@ def sessions(draw, max_rounds):
             kinds.append({"fail": bad_kind, "prefix": src[:j]})
         cells.append(" ; ".join(atoms))
         kinds.append({"ok": True})
-    return {"cells": cells, "meta": kinds}
+    return {"cells": cells, "meta": kinds, "attached": draw(st.integers(0, 2)) == 0}
 
 
 def _prop(case, stats):
@@ -299,6 +322,8 @@ def _prop(case, stats):
             stats.label("planned-failure-succeeded:" + m["fail"])
     if any(r["commits"] for r in results):
         stats.label("has-commit")
+    if case.get("attached"):
+        stats.label("attached-to-node")
 
 
 def run(h):
